@@ -42,6 +42,7 @@ type Engine struct {
 	siteInstr   map[*SiteSpec]ssa.Instruction
 	topFrame    *Frame
 	allocEvents []allocEvent
+	freshOnly   map[string]string // heap version -> the version it differs from only inside objects allocated in between
 	rngCtr      int
 	compPkgs    map[string]map[string]bool
 	importsOf   map[*types.Package]map[string]bool
